@@ -123,9 +123,7 @@ def _check_schedule(hist, pool, maxcache, gated, oracle, out):
         iso_out, iso_text, _ = oracle.get(call, r['star'], r['regs'], gated)
         pred = B.strip_pred(ends[p]['out'])
         why = None
-        if diff:
-            why = 'thread %d: %s changed (structure or identity) during the call' % (p, diff)
-        elif got != iso_out:
+        if got != iso_out:
             why = 'thread %d: outcome / observations %s differ from the isolated run %s' % (
                 p, json.dumps(got)[:400], json.dumps(iso_out)[:400])
         elif text != iso_text:
@@ -133,6 +131,8 @@ def _check_schedule(hist, pool, maxcache, gated, oracle, out):
         elif got != pred:
             why = 'thread %d: outcome / observations %s differ from the specification\'s prediction %s' % (
                 p, json.dumps(got)[:400], json.dumps(pred)[:400])
+        if why is None and diff:
+            why = 'thread %d: %s changed (structure or identity) during the call' % (p, diff)
         out['calls'] += 1
         if why:
             out['bad'].append(dict(why=why, case=dict(case, thread=p, observed=got, isolated=iso_out, predicted=pred,
@@ -470,6 +470,8 @@ def _main(check, tier, seed):
         'mode wrappers (Fill, Group) are never a non-last step of a tuple (C08\'s subject)',
         'wildcards on dicts / attribute objects only; "**", string iteration, big ints outside the model (rows skipped)',
         'CPython with the GIL; TLC, the Json community module and the value / spec codec are trusted']
+    # outcome / trace differences first, frame-condition-only reports after them
+    check.violations.sort(key=lambda v: 0 if 'differ' in v['why'] else 1)
     return check.finish(rule='TLC explores all interleavings of 2-3 calls (<= 4 yield points each, cache steps separate) and checks '
                         'non-interference; every schedule at harness granularity is replayed with real threads and each call compared '
                         'with the prediction and with its isolated run (value, observations, error class, error text); free-running '
